@@ -36,7 +36,7 @@ try:
 except ImportError:                                   # pragma: no cover
     import Queue as _queue
 
-REPO = os.environ.get('VERIF_REPO', '/repo')
+REPO = (os.environ.get('VERIF_REPO') or '/repo')
 if REPO not in sys.path:
     sys.path.insert(0, REPO)
 
